@@ -31,11 +31,11 @@ func c11(c *core.Ctx) {
 			nKey++
 			okKey := ssax.AnyIn(ssax.Backward(mu.Key), func(v ssa.Value) bool {
 				call, isCall := v.(*ssa.Call)
-				return isCall && isCallTo(call, "(*gmqtt.Subscription).GetFullTopicName") && call.Call.Args[0] == ssa.Value(a.Params[1])
+				return isCall && isCallTo(call, "(*gmqtt.Subscription).GetFullTopicName") && call.Call.Args[0] == ssa.Value(paramOf(a, 1))
 			})
 			c.Check(okKey, "C11.R1", fmt.Sprintf("gate|group-key#%d", nKey), ipos(c, in), "candidates grouped by $share/<group>/<filter>", "share-group candidates are not keyed by the full shared name: two groups on the same filter share one candidate list and only one of them receives the message")
 			// the candidate appended is this (clientID, sub)
-			okMember := ssax.AnyIn(ssax.Backward(mu.Value), func(v ssa.Value) bool { return v == ssa.Value(a.Params[0]) }) && ssax.AnyIn(ssax.Backward(mu.Value), func(v ssa.Value) bool { return v == ssa.Value(a.Params[1]) })
+			okMember := ssax.AnyIn(ssax.Backward(mu.Value), func(v ssa.Value) bool { return v == ssa.Value(paramOf(a, 0)) }) && ssax.AnyIn(ssax.Backward(mu.Value), func(v ssa.Value) bool { return v == ssa.Value(paramOf(a, 1)) })
 			c.Check(okMember, "C11.R1", fmt.Sprintf("gate|candidate#%d", nKey), ipos(c, in), "the matching (client, subscription) is the candidate", "the candidate recorded for the group is not the matching client and its subscription")
 		})
 	}
